@@ -4,7 +4,12 @@
 // C14 oracle then sees.
 package simrand
 
-import "verif/sim/simhook"
+import (
+	"math"
+	"math/rand"
+
+	"verif/sim/simhook"
+)
 
 func next() uint64 {
 	t := simhook.Now().UnixNano()
@@ -38,24 +43,21 @@ func Shuffle(n int, swap func(i, j int)) {
 	}
 }
 
-// Rand mirrors *rand.Rand.
-type Rand struct{}
+// An explicitly seeded generator is as deterministic as its seed: these are
+// the real ones (a seed taken from the clock comes from the simulated clock).
+type (
+	Rand   = rand.Rand
+	Source = rand.Source
+	Zipf   = rand.Zipf
+)
 
-type Source interface{ Int63() int64 }
-type src struct{}
-
-func (src) Int63() int64                         { return Int63() }
-func (src) Seed(int64)                           {}
-func NewSource(int64) Source                     { return src{} }
-func New(Source) *Rand                           { return &Rand{} }
-func (*Rand) Int() int                           { return Int() }
-func (*Rand) Intn(n int) int                     { return Intn(n) }
-func (*Rand) Int63() int64                       { return Int63() }
-func (*Rand) Int63n(n int64) int64               { return Int63n(n) }
-func (*Rand) Int31n(n int32) int32               { return Int31n(n) }
-func (*Rand) Uint32() uint32                     { return Uint32() }
-func (*Rand) Uint64() uint64                     { return Uint64() }
-func (*Rand) Float64() float64                   { return Float64() }
-func (*Rand) Perm(n int) []int                   { return Perm(n) }
-func (*Rand) Shuffle(n int, swap func(i, j int)) { Shuffle(n, swap) }
-func (*Rand) Seed(int64)                         {}
+func NewSource(seed int64) Source { return rand.NewSource(seed) }
+func New(src Source) *Rand        { return rand.New(src) }
+func ExpFloat64() float64         { return -math.Log(1 - Float64()) }
+func NormFloat64() float64        { return (Float64() + Float64() + Float64() + Float64() - 2) * 1.7 }
+func Read(p []byte) (int, error) {
+	for i := range p {
+		p[i] = byte(next())
+	}
+	return len(p), nil
+}
